@@ -69,7 +69,11 @@ res["caught_with_failing_input"] = caught and "no-failing-input-found" not in ou
 D = f"/verif/seeded/{P}-{K}"
 os.makedirs(D, exist_ok=True)
 for f in os.listdir(M):
-    if f != "meta.json":
+    if f == "meta.json":
+        continue
+    if os.path.isdir(f"{M}/{f}"):
+        shutil.copytree(f"{M}/{f}", f"{D}/{f}", dirs_exist_ok=True)
+    else:
         shutil.copy(f"{M}/{f}", D)
 meta["confirmation"] = res
 meta["what_it_needs_to_manifest"] = meta.get("needs", "")
